@@ -818,8 +818,8 @@ func isMembershipPredicate(f *ssa.Function) (bool, string) {
 	if f.Blocks == nil || len(f.Params) != 2 {
 		return false, "not a two-parameter predicate"
 	}
-	if _, ok := f.Params[0].Type().Underlying().(*types.Slice); !ok {
-		return false, "first parameter is not a slice"
+	if _, _, ok := predicateList(f); !ok {
+		return false, "first parameter is neither a list nor a record with one list"
 	}
 	trueOnEq, nTrue, other := false, 0, true
 	forEachInstr(f, func(b *ssa.BasicBlock, ins ssa.Instruction) {
@@ -900,6 +900,11 @@ func c12OptionValidation(w *World, r *Report, prop string) {
 			}
 			// ... or the list member of the row a lookup by name has found in the package-level table of options
 			_, ofRow := w.listOfFoundRow(c.Call.Args[0])
+			// ... or that row itself, handed to a predicate that is about the row's list (`row.accepts(value)`)
+			rowArg, isRowArg := w.foundRowWithList(c.Call.Args[0], c.Call.StaticCallee())
+			if isRowArg {
+				ofRow = true
+			}
 			if !ofRow {
 				if lk == nil || lk.X.Type().Underlying().String() != "map[string][]string" {
 					return
@@ -961,7 +966,7 @@ func c12OptionValidation(w *World, r *Report, prop string) {
 					if cond == nil {
 						continue
 					}
-					if op, nonEmptySucc, ok := lenGtZero(cond); ok && (stripIdentity(op) == stripIdentity(c.Call.Args[0]) || w.sameFoundRowList(op, c.Call.Args[0])) && edgeDominates(bb, nonEmptySucc, b) {
+					if op, nonEmptySucc, ok := lenGtZero(cond); ok && (stripIdentity(op) == stripIdentity(c.Call.Args[0]) || w.sameFoundRowList(op, c.Call.Args[0]) || isRowArg && w.isListOfRow(op, rowArg)) && edgeDominates(bb, nonEmptySucc, b) {
 						emptyOK = true
 					}
 				}
@@ -1888,8 +1893,12 @@ func wireBracketBalance(w *World, wc *wireCtx, r *Report, prop string, roles map
 	}
 }
 
-// returnsUnderEmptyList: the return is dominated by the edge on which len(first parameter) is 0.
+// returnsUnderEmptyList: the return is dominated by the edge on which len(the predicate's list) is 0.
 func returnsUnderEmptyList(f *ssa.Function, ret *ssa.Return) bool {
+	isList, _, ok := predicateList(f)
+	if !ok {
+		return false
+	}
 	for _, b := range f.Blocks {
 		cond := branchCond(b)
 		if cond == nil {
@@ -1913,7 +1922,7 @@ func returnsUnderEmptyList(f *ssa.Function, ret *ssa.Return) bool {
 			continue
 		}
 		bi, ok := call.Call.Value.(*ssa.Builtin)
-		if !ok || bi.Name() != "len" || len(call.Call.Args) != 1 || stripIdentity(call.Call.Args[0]) != ssa.Value(f.Params[0]) {
+		if !ok || bi.Name() != "len" || len(call.Call.Args) != 1 || !isList(call.Call.Args[0]) {
 			continue
 		}
 		n, _ := constant.Int64Val(k.Value)
@@ -1997,6 +2006,89 @@ func fileAdder(w *World, h *ssa.Function) (int, int, bool) {
 	return res[0], res[1], res[2] == 1
 }
 
+// predicateList: the list a two-parameter predicate f(list, x) is about: its first parameter, or - when the first parameter is a
+// record (or the address of one) - the one list member of that record that f reads and never writes (`func (row *spec) accepts(x)`
+// is `contains(row.allowed, x)` with the record standing for its list). isList tells whether a value inside f is that list; field
+// is the member's index (-1: the parameter itself).
+func predicateList(f *ssa.Function) (isList func(ssa.Value) bool, field int, ok bool) {
+	if f == nil || f.Blocks == nil || len(f.Params) != 2 {
+		return nil, 0, false
+	}
+	p0 := f.Params[0]
+	if _, isSlice := p0.Type().Underlying().(*types.Slice); isSlice {
+		return func(v ssa.Value) bool { return stripIdentity(v) == ssa.Value(p0) }, -1, true
+	}
+	rt := p0.Type().Underlying()
+	if pt, isPtr := rt.(*types.Pointer); isPtr {
+		rt = pt.Elem().Underlying()
+	}
+	if _, isStruct := rt.(*types.Struct); !isStruct {
+		return nil, 0, false
+	}
+	// member `m` of the record handed in, read through its address, its value or the local copy of its value
+	memberRead := func(v ssa.Value) (int, bool) {
+		switch x := stripIdentity(v).(type) {
+		case *ssa.Field:
+			if stripIdentity(x.X) == ssa.Value(p0) {
+				return x.Field, true
+			}
+		case *ssa.UnOp:
+			fa, isFA := x.X.(*ssa.FieldAddr)
+			if x.Op != token.MUL || !isFA {
+				return 0, false
+			}
+			base := stripIdentity(fa.X)
+			if al, isAl := base.(*ssa.Alloc); isAl {
+				if val := recordAssignedOnce(al); val != nil {
+					base = stripIdentity(val)
+				}
+			}
+			if base == ssa.Value(p0) {
+				return fa.Field, true
+			}
+		}
+		return 0, false
+	}
+	field = -1
+	good := true
+	forEachInstr(f, func(_ *ssa.BasicBlock, ins ssa.Instruction) {
+		switch x := ins.(type) {
+		case *ssa.FieldAddr:
+			// a member of the record is only read here
+			if stripIdentity(x.X) == ssa.Value(p0) && x.Referrers() != nil {
+				for _, ref := range *x.Referrers() {
+					switch ref.(type) {
+					case *ssa.UnOp, *ssa.DebugRef:
+					default:
+						good = false
+					}
+				}
+			}
+		}
+		v, isVal := ins.(ssa.Value)
+		if !isVal {
+			return
+		}
+		if _, isSlice := v.Type().Underlying().(*types.Slice); !isSlice {
+			return
+		}
+		if m, isM := memberRead(v); isM {
+			if field >= 0 && field != m {
+				good = false
+			}
+			field = m
+		}
+	})
+	if !good || field < 0 {
+		return nil, 0, false
+	}
+	want := field
+	return func(v ssa.Value) bool {
+		m, isM := memberRead(v)
+		return isM && m == want
+	}, field, true
+}
+
 // membershipWrapper: f(list, x) bool is written in terms of another membership predicate: its one return value is
 // `member(list, x)`, or `len(list) == 0 || member(list, x)` (an empty list accepts anything). Reports whether it is one and
 // whether it lets the empty list pass.
@@ -2004,7 +2096,8 @@ func membershipWrapper(f *ssa.Function, depth int) (bool, bool) {
 	if f == nil || f.Blocks == nil || len(f.Params) != 2 || depth > 2 {
 		return false, false
 	}
-	if _, ok := f.Params[0].Type().Underlying().(*types.Slice); !ok {
+	isList, _, ok := predicateList(f)
+	if !ok {
 		return false, false
 	}
 	var rets []*ssa.Return
@@ -2024,7 +2117,7 @@ func membershipWrapper(f *ssa.Function, depth int) (bool, bool) {
 			return false
 		}
 		op, nonEmptySucc, ok := lenGtZero(cond)
-		if !ok || stripIdentity(op) != ssa.Value(f.Params[0]) {
+		if !ok || !isList(op) {
 			return false
 		}
 		return pred.Succs[1-nonEmptySucc] == blk && pred.Succs[0] != pred.Succs[1]
@@ -2037,7 +2130,10 @@ func membershipWrapper(f *ssa.Function, depth int) (bool, bool) {
 		switch x := v.(type) {
 		case *ssa.Call:
 			g := x.Call.StaticCallee()
-			if g == nil || len(x.Call.Args) != 2 || stripIdentity(x.Call.Args[0]) != ssa.Value(f.Params[0]) || stripIdentity(x.Call.Args[1]) != ssa.Value(f.Params[1]) {
+			if g == nil || len(x.Call.Args) != 2 || stripIdentity(x.Call.Args[1]) != ssa.Value(f.Params[1]) {
+				return false
+			}
+			if !isList(x.Call.Args[0]) {
 				return false
 			}
 			if strings.HasPrefix(g.String(), "slices.Contains[") || strings.HasPrefix(g.String(), "slices.Contains(") || g.String() == "slices.Contains" {
